@@ -20,7 +20,7 @@ PROP_ORACLES = {
     'C10': ['overlay', 'union.overlay'],
     'C11': ['composite.memory', 'composite.altroot', 'composite.physical', 'transfer', 'copydir'],
     'C12': ['paths', 'tree.memory', 'tree.altroot'],
-    'C13': ['paths', 'reader', 'writer', 'tree.memory', 'tree.altroot', 'tree.overlay', 'tree.physical', 'union.overlay', 'overlay', 'transfer', 'handles', 'hostile.physical', 'times'],
+    'C13': ['paths', 'reader', 'writer', 'tree.memory', 'tree.altroot', 'tree.overlay', 'tree.physical', 'union.overlay', 'overlay', 'transfer', 'handles', 'hostile.physical', 'times', 'adiff:hostile', 'adiff:reader', 'adiff:schedule', 'adiff:steps.memory'],
     'C14': ['reader', 'writer'],
     'C15': ['adiff:steps.memory', 'adiff:steps.altroot', 'adiff:steps.overlay', 'adiff:steps.physical', 'adiff:reader', 'adiff:schedule', 'adiff:hostile'],
     'C18': [],
@@ -45,12 +45,12 @@ BOUNDS = {
     'times': 'set_creation/modification/access_time: 3 fields x 3 fields (ordered pairs) x 7 instants (epoch, sub-second, before the epoch, far future) on a file, a directory and the root, on memory, altroot, overlay (upper-layer entries), physical and altroot over physical; plus append sessions (creation time kept, also when set while the handle is open)',
     'handles': '6 scenarios of read / write handles that outlive their file (removed, ancestor removed, re-created) on memory, altroot, overlay: no panic, filesystem usable afterwards',
     'hostile.physical': '14 operations on every entry of a directory holding a dangling symlink, symlinks to a directory and to a file and a non-UTF-8 name: no panic; metadata type agrees with listability',
-    'adiff:steps.memory': 'differential, sync MemoryFS vs AsyncMemoryFS: all sequences of 1 (deep: 2) operations (11 kinds incl. move/copy file, copy/move dir x 8 paths) from the empty and from a populated tree; after every step the result class and every observation (exists, metadata type/len, is_file/is_dir, listing, bytes, text, walk) of every path must agree',
-    'adiff:steps.altroot': 'same, AltrootFS vs AsyncAltrootFS over in-memory filesystems',
+    'adiff:steps.memory': 'differential, sync MemoryFS vs AsyncMemoryFS: all sequences of 2 (deep: 3) operations (11 kinds incl. move/copy file, copy/move dir x 8 paths) from the empty and from a populated tree; after every step the result class and every observation (exists, metadata type/len, is_file/is_dir, listing, bytes, text, walk) of every path must agree',
+    'adiff:steps.altroot': 'same (length 2), AltrootFS vs AsyncAltrootFS over in-memory filesystems',
     'adiff:steps.overlay': 'same, OverlayFS vs AsyncOverlayFS over two in-memory layers with a pre-populated lower layer',
     'adiff:steps.physical': 'same (length 1), PhysicalFS vs AsyncPhysicalFS on two fresh temporary directories',
     'adiff:reader': 'sync vs async read handle over the same bytes (lengths 0,1,3): all scripts of 2 (deep: 3) read/seek calls from 15 operations',
-    'adiff:schedule': 'walk_dir / read_dir of the async path type over a filesystem whose every call and every stream item is Pending k times first, k = 0..3, on 4 trees: the yielded sequence is independent of k, equals the sync traversal as a set, directories before their contents',
+    'adiff:schedule': 'walk_dir / read_dir of the async path type over a filesystem whose every call and every stream item is Pending k times first, k = 0..3, on 4 trees: the yielded sequence is independent of k, equals the sync traversal as a set, directories before their contents; plus: every remaining entry removed after the first item (1 and 3 entries), k = 0..3: as many error items as the sync iterator yields, then the end',
     'adiff:hostile': 'AsyncPhysicalFS on a directory holding a dangling symlink and a non-UTF-8 name: no panic, listing equals the sync one',
     'transfer': 'copy_file / move_file over 4 contents (empty, 1 byte, non-UTF-8, 9000 bytes) x same/other filesystem x altroot source x existing destination',
 }
@@ -78,13 +78,16 @@ def build():
     return p.returncode == 0, p.stdout.decode('utf-8', 'replace')[-3000:], time.time() - t0
 
 
-def run(names, deep=False, timeout=600):
+def run(names, deep=False, timeout=None):
     """returns (ok_to_trust, results) with results: list of dict(check, status PASS|FAIL|ERROR, detail)"""
+    timeout = timeout or (2400 if deep else 600)
     ok, log, bt = build()
     if not ok:
         return False, [{'check': n, 'status': 'ERROR', 'detail': 'replay crate does not build against the current /repo: ' + log[-600:]} for n in names]
-    out = []
-    for n in names:
+    import concurrent.futures as cf
+
+    def one(n):
+        res = []
         binary, arg = ('adiff', n[6:]) if n.startswith('adiff:') else ('oracle', n)
         cmd = [os.path.join(crate_dir(), 'target', 'release', binary)] + (['--deep'] if deep else []) + [arg]
         try:
@@ -92,13 +95,18 @@ def run(names, deep=False, timeout=600):
             lines = [l for l in p.stdout.decode('utf-8', 'replace').split('\n') if l.startswith(('PASS', 'FAIL'))]
             if not lines and p.returncode < 0:
                 # killed by a signal (SIGABRT): a panic escaped catch_unwind - raised inside a Drop while unwinding or in a no-unwind context
-                out.append({'check': n, 'status': 'ABORT', 'bound': BOUNDS.get(n, ''), 'cmd': ' '.join(cmd),
+                res.append({'check': n, 'status': 'ABORT', 'bound': BOUNDS.get(n, ''), 'cmd': ' '.join(cmd),
                             'detail': 'the oracle process was killed by signal %d while running %s: a panic of the library escaped every handler (panic inside Drop / while unwinding)' % (-p.returncode, n)})
             elif not lines:
-                out.append({'check': n, 'status': 'ERROR', 'detail': 'no verdict line (exit %d)' % p.returncode})
+                res.append({'check': n, 'status': 'ERROR', 'detail': 'no verdict line (exit %d)' % p.returncode})
             for l in lines:
                 st, _, rest = l.partition(' ')
-                out.append({'check': n, 'status': st, 'detail': rest, 'bound': BOUNDS.get(n, ''), 'cmd': ' '.join(cmd)})
+                res.append({'check': n, 'status': st, 'detail': rest, 'bound': BOUNDS.get(n, ''), 'cmd': ' '.join(cmd)})
         except subprocess.TimeoutExpired:
-            out.append({'check': n, 'status': 'ERROR', 'detail': 'timeout'})
+            res.append({'check': n, 'status': 'ERROR', 'detail': 'timeout'})
+        return res
+
+    # the oracles are independent processes (own temporary directories); results keep the order of `names`
+    with cf.ThreadPoolExecutor(max_workers=6) as ex:
+        out = [x for res in ex.map(one, names) for x in res]
     return True, out
